@@ -130,24 +130,77 @@ def check_ack_table(ctx):
     ctx.ob("C12.T1", f.qualname, ok, "CEED and the CEID list of the request are applied" if ok else f"_set_ce_state is called with {[norm(a) for a in c[0].args] if c else None}", key="args", where=f.where)
 
 
+MENTIONS = {
+    "RPTID_REDEFINED": (["self._registered_reports"], "in"),
+    "VID_UNKNOWN": (["self._data_values", "self._status_variables"], "not in"),
+    "CEID_UNKNOWN": (["self._collection_events"], "not in"),
+    "CEID_LINKED": ([".reports"], "in"),
+    "RPTID_UNKNOWN": (["self._registered_reports"], "not in"),
+}
+
+
 def _cond_table(ctx, f, cfg, ack, want):
+    """Refusal rules of one pre-check pass: every refusing test is evaluated for every entry (unless the path
+    already refuses), the verdict is monotone (never reset to 0), each constant is guarded by a membership test on the
+    right table."""
     ctx.touch(f)
-    got = {}
-    for n in cfg.real_nodes():
-        if isinstance(n.ast, ast.Assign) and norm(n.ast.targets[0]) == ack and "." in norm(n.ast.value):
-            const = norm(n.ast.value).split(".")[-1]
+    loops = [n for n in cfg.nodes if n.kind == "iter" and norm(n.ast.iter).endswith(".DATA")]
+    pre = loops[0]
+    body = rules.branch_marker(pre, "true")
+    inside = [n for n in cfg.real_nodes() if cfg.path_exists(body, n, avoid=[pre])]
+    assigns = [n for n in inside if isinstance(n.ast, (ast.Assign, ast.AugAssign)) and any(norm(t) == ack for t in rules.assigned_targets(n.ast))]
+    consts = {}
+    for n in assigns:
+        v = n.ast.value
+        txt = norm(v)
+        name = txt.split(".")[-1]
+        if isinstance(v, ast.Attribute) and name in MENTIONS:
+            consts.setdefault(name, []).append(n)
+        else:
+            ctx.ob("C12.T1", f.qualname, False, f"`{n.text()}` can replace a refusal decided for an earlier entry of the same request (the verdict must only move away from ACK inside the pre-check): a request containing an invalid entry is acknowledged with 0 and applied", key="monotone " + n.text(), where=f.where)
+    ctx.ob("C12.T1", f.qualname, all(len(v) >= 1 for v in consts.values()) and bool(consts), "the pre-check only ever sets the acknowledge to an error constant", key="monotone", where=f.where)
+    for const in want:
+        nodes = consts.get(const, [])
+        ok = bool(nodes)
+        ctx.ob("C12.T1", f.qualname, ok, f"{const} can be reported" if ok else f"{const} is never reported by the pre-check", key="has " + const, where=f.where)
+        for n in nodes:
+            tables, polarity = MENTIONS[const]
             conds = cfg.dominating_conditions(n)
-            inner = [norm(t).replace("(", "").replace(")", "") if False else norm(t) for t, v in conds if v]
-            got[const] = inner
-    for const, conds in want.items():
-        g = got.get(const)
-        ok = g is not None and all(any(_same_cond(c, x) for x in g) for c in conds)
-        ctx.ob("C12.T1", f.qualname, ok, f"{const} is reported under `{conds[0]}`" if ok else f"{const} is reported under {g}, expected `{conds[0]}`", key="cond " + const, where=f.where)
+            expanded = [(rules.expand(f.node, t), v) for t, v in conds]
+            hit = False
+            for txt, v in expanded:
+                if all(tb in txt for tb in tables):
+                    has_not = " not in " in txt
+                    eff = ("not in" if has_not else "in") if v else ("in" if has_not else "not in")
+                    if eff == polarity:
+                        hit = True
+            ctx.ob("C12.T1", f.qualname, hit, f"{const} is reported when the id is {polarity} {' / '.join(tables)}" if hit else
+                   f"{const} is reported under {[(t, v) for t, v in expanded]}, which is not the test `id {polarity} {' / '.join(tables)}`", key="cond " + const, where=f.where)
+            # the guarding test is evaluated for every entry unless the path refuses anyway
+            tests = [x for x in cfg.nodes if x.kind == "test" and any(x.ast is t for t, _ in conds) and all(tb in rules.expand(f.node, x.ast) for tb in tables)]
+            if not tests:
+                continue
+            T = tests[-1]
+            inner_loops = [l for l in cfg.nodes if l.kind == "iter" and cfg.path_exists(rules.branch_marker(l, "true"), T, avoid=[l])]
+            L = inner_loops[-1] if inner_loops else pre
+            start = rules.branch_marker(L, "true")
+            # a test nested under a precondition of its own operands (e.g. "the link exists" for "already linked")
+            # is legitimately skipped when the precondition fails
+            import re as _re
 
-
-def _same_cond(a, b):
-    strip = lambda s: s.replace("(", "").replace(")", "").replace(" ", "")  # noqa: E731
-    return strip(a) == strip(b)
+            support = set(_re.findall(r"self\._[a-z_]+", rules.expand(f.node, T.ast)))
+            allowed = []
+            for t, v in cfg.dominating_conditions(T):
+                tn = next((x for x in cfg.nodes if x.kind == "test" and x.ast is t), None)
+                if tn is None or tn is T or not cfg.path_exists(start, tn, avoid=[L]):
+                    continue
+                mentioned = set(_re.findall(r"self\._[a-z_]+", rules.expand(f.node, t)))
+                if mentioned and mentioned <= support:
+                    allowed.append(rules.branch_marker(tn, "false" if v else "true"))
+            skip = cfg.path_exists(start, L, avoid=[T] + assigns + allowed)
+            ctx.ob("C12.T1", f.qualname, not skip, f"the {const} test is evaluated for every entry (or the entry is refused on another ground)" if not skip else
+                   f"the test for {const} (`{norm(T.ast)}`) is skipped on some path through an entry that is not refused otherwise (e.g. it became the elif of an unrelated test): an invalid id is acknowledged with 0 and stored",
+                   key="always-tested " + const, where=f.where)
 
 
 def check_integrity(ctx):
